@@ -31,10 +31,8 @@ inline bool entry_stable(int e) { return e & 1; }
 inline bool entry_sentinels(int e) { return (e & 2) != 0; }
 
 // one TU each (the template matrix is split so that it compiles in parallel)
-void run_int_less_u(pbt::Source& src, const Cfg& cfg);
-void run_int_less_s(pbt::Source& src, const Cfg& cfg);
-void run_int_greater_u(pbt::Source& src, const Cfg& cfg);
-void run_int_greater_s(pbt::Source& src, const Cfg& cfg);
+void run_int_u(pbt::Source& src, const Cfg& cfg);
+void run_int_s(pbt::Source& src, const Cfg& cfg);
 void run_rec8_u(pbt::Source& src, const Cfg& cfg);
 void run_rec8_s(pbt::Source& src, const Cfg& cfg);
 void run_rec40_u(pbt::Source& src, const Cfg& cfg);
@@ -144,8 +142,8 @@ OutIt call_merge(const Cfg& cfg, bool omit_cmp, SeqIt sb, SeqIt se, OutIt t, std
     const bool def = cfg.alg == 0;
     const MultiwayMergeAlgorithm a = A[cfg.alg];
     const int e = cfg.entry >> 1; // 0 front-end, 1 front-end with sentinels, 2 base<Stable,false>, 3 base<Stable,true>
-    if constexpr (std::is_same<Cmp, std::less<int>>::value) {
-        if (omit_cmp && def) { // default comparator + default algorithm arguments
+    if constexpr (std::is_same<Cmp, DirCmp<int>>::value) {
+        if (omit_cmp && def && !cfg.desc) { // int, ascending: defaulted comparator (std::less<int>) and algorithm arguments
             if constexpr (Stable) {
                 switch (e) {
                 case 0: return stable_multiway_merge(sb, se, t, len);
@@ -384,7 +382,7 @@ void run_case(pbt::Source& src, const Cfg& cfg, Cmp cmp) {
 
     if (pbt::verbose()) {
         PBT_LOG("tlx::" << ENTRY_NAME[cfg.entry] << " alg=" << ALG_NAME[cfg.alg] << " elem=" << T::name << " (" << sizeof(E)
-                        << " bytes) cmp=" << (desc ? "greater" : "less") << (omit_cmp ? " [comparator argument omitted if int/less/default]" : "")
+                        << " bytes) cmp=" << (desc ? "greater" : "less") << (omit_cmp && cfg.alg == 0 && !desc && std::is_same<E, int>::value ? " [comparator and algorithm arguments omitted: std::less<int>]" : "")
                         << " k=" << k << " length=" << length << " of total=" << total << "\n");
         for (int i = 0; i < k; ++i) {
             PBT_LOG("  seq[" << i << "] n=" << n[i] << " keys:");
